@@ -19,6 +19,7 @@ func c17(c *eng.Ctx, r *eng.Report) {
 		"R17.2 MarkExecuted writes and flushes the executed records before it removes the transactions from pending, UnMarkExecuted deletes the executed record before it re-adds the transaction; " +
 		"R17.3 PackForCast never returns more than the per-block limit, checkNonce sorts first, never packs a transaction on the `expected < nonce` edge, and every transaction that advances its sender's expected nonce is packed; " +
 		"R17.4 every field of TxPool/simpleContainer is of a thread-safe type, immutable after construction, or accessed only with its mutex held (lockset over all access sites, helper functions checked at their call sites). " +
+		"R17.5 the pending container's push stores the transaction unless the container is full — no other drop condition (the path a reorged block's transactions return through). " +
 		"Not decided: linearizability of concurrent histories; behaviour of the third-party containers."
 	r.Assume = []string{"hashicorp/golang-lru Cache, gogf gmap.ListMap(safe=true), sync.Map and LevelDB handles are safe for concurrent use", "chain-level callers hold middleware.LockBlockchain (not checked here)"}
 	pkg := "service"
@@ -72,6 +73,55 @@ func c17(c *eng.Ctx, r *eng.Report) {
 	c17Order(c, r)
 	c17Pack(c, r)
 	c17Lockset(c, r)
+	c17PushTotal(c, r)
+}
+
+// c17PushTotal: once add() decided that a transaction is neither pending nor
+// executed, the pending store takes it unless it is full. A reorged block's
+// transactions come back through this same path, so any further reason to drop
+// one makes it neither executed nor pending.
+func c17PushTotal(c *eng.Ctx, r *eng.Report) {
+	const rule = "R17.5"
+	r.Min(rule, 1)
+	push := c.Func("service", "(*simpleContainer).push")
+	if !r.Anchor(push != nil, rule, "(*simpleContainer).push") {
+		return
+	}
+	var sets []*ssa.Call
+	for _, s := range eng.Sites(push) {
+		if strings.HasSuffix(s.Name(), "gmap.ListMap).Set") {
+			if call, ok := s.Instr.(*ssa.Call); ok {
+				sets = append(sets, call)
+			}
+		}
+	}
+	ok := len(sets) == 1
+	why := fmt.Sprintf("%d data.Set calls", len(sets))
+	if ok {
+		conds := eng.CondsAt(sets[0])
+		var extra []string
+		room := false
+		for _, cd := range conds {
+			if m, isM := cd.Cmp(); isM {
+				d := eng.Desc(m.X) + " " + m.Op.String() + " " + eng.Desc(m.Y)
+				if strings.Contains(d, ".Size(") && strings.Contains(d, ".limit") {
+					room = true
+					continue
+				}
+				extra = append(extra, d)
+				continue
+			}
+			extra = append(extra, fmt.Sprintf("%s=%v", eng.Desc(cd.V), cd.True))
+		}
+		if len(extra) > 0 {
+			ok, why = false, "the transaction is stored only if additionally "+strings.Join(extra, " and ")
+		}
+		_ = room
+		if !isParamNamed(sets[0].Call.Args[2], "tx") || !strings.HasSuffix(eng.Desc(sets[0].Call.Args[1]), "tx.Hash") {
+			ok, why = false, "what is stored is not (tx.Hash, tx)"
+		}
+	}
+	r.Check(ok, rule, "simpleContainer.push:total", c.Pos(push.Pos()), "push stores (tx.Hash, tx) unless the container is full; no other reason to drop", "simpleContainer.push can drop a transaction that add() accepted for a reason other than lack of room ("+why+"): UnMarkExecuted re-adds a reorged block's transactions through this path, so such a transaction ends up neither executed nor pending and can never be packed again")
 }
 
 func c17Order(c *eng.Ctx, r *eng.Report) {
